@@ -77,7 +77,7 @@ var pureStd = map[string]bool{
 // packages with partial seams: listed functions are redirected, listed pure ones are allowed, other functions refused
 var shimFuncs = map[string]map[string]string{
 	"os":            {"ReadFile": "ReadFile", "Stat": "Stat", "Lstat": "Lstat", "ReadDir": "ReadDir", "Getwd": "Getwd", "Open": "Open", "SameFile": "SameFile"},
-	"path/filepath": {"Walk": "Walk", "WalkDir": "WalkDir", "Abs": "Abs"},
+	"path/filepath": {"Walk": "Walk", "WalkDir": "WalkDir", "Abs": "Abs", "Glob": "Glob"},
 	"time":          {"Now": "Now", "Since": "Since", "Until": "Until", "Sleep": "Sleep"},
 	"io/ioutil":     {"ReadFile": "ReadFile"},
 	"runtime":       {"GOMAXPROCS": "GOMAXPROCS", "NumCPU": "NumCPU", "Gosched": "Gosched"},
